@@ -113,6 +113,7 @@ type caseCfg struct {
 	kind     string // call | push
 	shape    string // json | raw | pb
 	kc, ks   string
+	padLucky bool // different keys, and the request's ciphertext decrypts under ks to validly padded bytes
 	xSecure  string // "" = absent
 	xAccept  string
 	enforce  string // "" none, "enforce" = secure.EnforceSecure, other = literal X-Secure value
@@ -648,6 +649,31 @@ func genCase(cfg *RunCfg) *caseCfg {
 		c.arg = []byte(`{"x":"` + pad() + c.argMark + `"}`)
 		c.res = []byte(`{"y":"` + c.resMark + pad() + `"}`)
 	}
+	// Different keys whose decryption would NOT fail by itself: AES-ECB with PKCS5 padding is
+	// unauthenticated, about one foreign key in 256 turns the ciphertext into validly padded
+	// garbage. The refusal of a message encrypted under another key must not depend on that luck
+	// (the plugin compares key versions first), so half of the different-key cases search for
+	// such a receiver key - for the request and, when found, the harness counts it.
+	if c.kc != c.ks && r.Intn(2) == 0 {
+		ct := goutil.AESEncrypt([]byte(c.kc), marshalWith(codecOf(c.shape), c.arg))
+		for try := 0; try < 6000; try++ {
+			k := randKey(cfg, len(c.ks))
+			if k == c.kc {
+				continue
+			}
+			ok := false
+			func() {
+				defer func() { recover() }()
+				_, err := goutil.AESDecrypt([]byte(k), append([]byte(nil), ct...))
+				ok = err == nil
+			}()
+			if ok {
+				c.ks = k
+				c.padLucky = true
+				break
+			}
+		}
+	}
 	return c
 }
 
@@ -670,6 +696,9 @@ func countCase(st *Stats, c *caseCfg, o *outcome) {
 	st.Count("shape:" + c.shape)
 	st.Count("handler:" + c.hkind + "/" + c.hret)
 	st.Count("keys:" + keys + Fmt(":%d", len(c.kc)))
+	if c.padLucky {
+		st.Count("keys:different-but-padding-accepts")
+	}
 	st.Count("x-secure:" + c.xSecure)
 	st.Count("x-accept:" + c.xAccept)
 	st.Count("handler-marker:" + c.enforce)
